@@ -18,11 +18,12 @@ using namespace c08;
 static Run* R;
 static bool VERBOSE = false;
 static bool PROFILE = false;
+static int QUICK_TRIM = 0;  // quick tier: 2000 oracle samples per section, rims at every second of them
 static inline void prof(const char* name, double t0) { if (PROFILE) R->count(name, (int64_t)((now() - t0) * 1e6)); }
 
 // ------------------------------------------------------------------ alphabet
-enum Kind { K_SEG, K_ARCC, K_ARCE, K_TURNL, K_TURNR, K_QUAD, K_CUBIC, K_QSM, K_CSM, K_BEZ, K_INTERP, K_PARG, K_PARN, NKINDS };
-static const char* KNAME[] = {"segment", "arc_circular", "arc_elliptical", "turn+90", "turn-90", "quadratic", "cubic", "quadratic_smooth", "cubic_smooth", "bezier4", "interpolation2", "parametric+grad", "parametric_nograd"};
+enum Kind { K_SEG, K_ARCC, K_ARCE, K_TURNL, K_TURNR, K_QUAD, K_CUBIC, K_QSM, K_CSM, K_BEZ, K_INTERP, K_PARG, K_PARN, K_ARCER, K_ARCCR, NKINDS };
+static const char* KNAME[] = {"segment", "arc_circular", "arc_elliptical", "turn+90", "turn-90", "quadratic", "cubic", "quadratic_smooth", "cubic_smooth", "bezier4", "interpolation2", "parametric+grad", "parametric_nograd", "arc_elliptical_rot_pi/6", "arc_circular_rot0.7"};
 static bool forced_smooth(int k) { return k == K_TURNL || k == K_TURNR || k == K_QSM || k == K_CSM; }
 static bool curved(int k) { return k != K_SEG; }
 static const double JOINT[] = {0.0, M_PI / 4, -M_PI / 2};
@@ -36,7 +37,7 @@ static const char* TNAME[] = {"identity", "rotate0.6", "mirror", "scale2", "tran
 static const int NTR = 5;
 static const double EXT_U = 1.0, EXT_V = 0.5;  // Extended end: (start, end) extensions
 static const uint64_t MAX_EVALS = 1000;
-static const int NS = 4000;                     // oracle samples per section
+static int NS = 4000;                           // oracle samples per section (quick tier: 2000)
 
 struct Step { int kind, joint; };
 struct Case {
@@ -165,6 +166,22 @@ static void build(const Case& c, Built& b) {
                 p.arc(rx, ry, t0 + h, t1 + h, h, W, O);
                 V ctr = pen - rot(V{rx * cos(t0), ry * sin(t0)}, h);
                 added.push_back(OSec::arc(ctr, rx, ry, t0, t1, h));
+            } break;
+            case K_ARCER: {
+                // ellipse 10 x 5 whose own axes are turned by pi/6 against the direction of travel: rotation argument
+                // h + pi/6 (never 0); the parameter range starts where the ellipse's tangent points along the heading
+                const double rx = 10, ry = 5, rotn = h + M_PI / 6;
+                const double dx = cos(h - rotn), dy = sin(h - rotn);      // heading in the ellipse's frame
+                const double t0 = atan2(-dx / rx, dy / ry), t1 = t0 + M_PI / 4;
+                p.arc(rx, ry, t0 + rotn, t1 + rotn, rotn, W, O);
+                V ctr = pen - rot(V{rx * cos(t0), ry * sin(t0)}, rotn);
+                added.push_back(OSec::arc(ctr, rx, ry, t0, t1, rotn));    // own end point: ctr + R(rotn)(rx cos t1, ry sin t1)
+            } break;
+            case K_ARCCR: {
+                // circular quarter arc given with rotation 0.7: a circle does not depend on it (oracle: plain circle)
+                p.arc(5, 5, h - M_PI / 2, h, 0.7, W, O);
+                V ctr = pen - V{5 * cos(h - M_PI / 2), 5 * sin(h - M_PI / 2)};
+                added.push_back(OSec::arc(ctr, 5, 5, h - M_PI / 2, h, 0));
             } break;
             case K_TURNL: case K_TURNR: {
                 double dir = have_prev ? atan2(prevder.y, prevder.x) : 0.0;  // documented: +x for an empty path
@@ -309,7 +326,15 @@ static void model_locate(double u, bool from_below, int n, int& idx, double& fr)
 static void check_queries(const Case& c, Built& b) {
     const int n = (int)b.secs.size();
     const double sm = b.T.mag;
-    const double us[] = {0, 0.25, 0.5, 1, 1.5, (double)n};
+    std::vector<double> us = {0, 0.25, 0.5, 1, 1.5, (double)n};
+    for (int k = 2; k < n; k++) us.push_back(k);  // every section boundary
+    // continuity: the spine has no gap at a section boundary
+    for (int k = 1; k < n; k++) {
+        Vec2 a = b.path.position(k, true), c2 = b.path.position(k, false);
+        if (!(len(V{a.x - c2.x, a.y - c2.y}) <= 1e-9 * sm * (1 + fabs(a.x) + fabs(a.y))))
+            report(c, {"query.continuity", "gap", fmt("position(%d) from below (%.12g, %.12g) and from above (%.12g, %.12g) differ: section %d (%s) does not start where section %d (%s) ends",
+                                                     k, a.x, a.y, c2.x, c2.y, k, KNAME[b.secs[k].kind], k - 1, KNAME[b.secs[k - 1].kind]), 0, b.secs[k - 1].kind, {{"u", jnum(k)}}});
+    }
     for (double u : us)
         for (int fb = 0; fb < 2; fb++) {
             int idx; double fr;
@@ -536,7 +561,7 @@ static void run_case(const Case& c) {
                          {"taper_at_angled_joint", jbool(o.taper_at_angled_joint)}, {"warning_returned", jbool(ec != ErrorCode::NoError)}};
         // must-cover
         double tm_ = now();
-        Miss m = o.must_cover(pi);
+        Miss m = o.must_cover(pi, QUICK_TRIM ? 2 : 1);
         prof("us_must_cover", tm_);
         R->count("must_cover_points", m.tested);
         if (m.count) {
@@ -570,7 +595,8 @@ static void run_case(const Case& c) {
                        e, kind, cause});
         }
     }
-    if (c.wk == 0 && (int)polys.count == c.nel) {
+    // PATH record: every constant-width case; quick tier, 2-section paths: offsets {1.5, linear} only (file I/O budget)
+    if (c.wk == 0 && (int)polys.count == c.nel && (QUICK_TRIM == 0 || c.seq.size() < 2 || c.ok == 1 || c.ok == 2)) {
         bool okk = true;
         for (auto& o : eo) okk &= o.error.empty() && o.degenerate.empty();
         double tr_ = now();
@@ -608,6 +634,10 @@ static std::vector<Group> full_groups() {
 static std::vector<Group> diagonal_groups() {
     return {{1, 0, 0, 0}, {2, 1, 1, 1}, {1, 2, 0, 2}, {2, 3, 1, 3}, {1, 3, 0, 4}};
 }
+static std::vector<Group> quick_groups() {  // quick tier, 2-section paths (mirror() itself: full product of the 1-section stage)
+    return {{1, 0, 0, 0}, {2, 1, 1, 1}, {2, 3, 1, 3}, {1, 2, 0, 4}};
+}
+static const char* QUICK_DESC = "{(1 el,flush,1e-2,identity),(2,halfwidth,1e-3,rotate),(2,round,1e-3,scale2),(1,extended,1e-2,transform)}";
 static const char* DIAG_DESC = "{(1 el,flush,1e-2,identity),(2,halfwidth,1e-3,rotate),(1,extended,1e-2,mirror),(2,round,1e-3,scale2),(1,round,1e-2,transform)}";
 
 typedef std::vector<std::pair<int, int>> WO;
@@ -627,10 +657,10 @@ static bool stage(const std::string& sub, int nsec, const std::vector<Group>& gr
         for (auto& p : wo) run_case(mk(i, p.first, p.second));
     };
     PFOptions opt;
-    opt.case_timeout_s = 30;
+    opt.case_timeout_s = R->thorough() ? 10 : 4;  // x20 when re-run alone; a group is 4..16 paths of ~5 ms each
     opt.sub = sub;
     bool ok = parallel_for(*R, n, body, [&](int64_t i) { return case_json(mk(i, 0, 0)); }, [&](int64_t i) { return replay_of(mk(i, 0, 0)) + (wo.size() == 16 ? " all_wo=1" : " all_wo=2"); }, opt);
-    R->bound(sub, fmt("every sequence of %d section(s) from 13 kinds x joints {tangent,+45,-90} (%zu sequences) x %s x %s", nsec, seqs.size(), wo.size() == 16 ? "width{const,linear,smooth,parametric} x offset{0,1.5,linear,smooth}" : "(width,offset) in {(const,0),(linear,linear),(smooth,smooth),(parametric,1.5)}", gdesc.c_str()), ok, n * (int64_t)wo.size());
+    R->bound(sub, fmt("every sequence of %d section(s) from 15 kinds x joints {tangent,+45,-90} (%zu sequences) x %s x %s", nsec, seqs.size(), wo.size() == 16 ? "width{const,linear,smooth,parametric} x offset{0,1.5,linear,smooth}" : "(width,offset) in {(const,0),(linear,linear),(smooth,smooth),(parametric,1.5)}", gdesc.c_str()), ok, n * (int64_t)wo.size());
     return ok;
 }
 
@@ -657,6 +687,7 @@ int main(int argc, char** argv) {
     R = &run;
     error_logger = NULL;
     PROFILE = getenv("C08_PROFILE") != NULL;
+    if (!run.thorough()) { NS = 2000; QUICK_TRIM = 1; }  // also for replays of quick-tier cases
     if (run.replaying()) {
         VERBOSE = true;
         Case c = parse_case(run);
@@ -665,13 +696,17 @@ int main(int argc, char** argv) {
         return run.finish();
     }
     const std::string full = "elements{1,2} x end{flush,halfwidth,extended,round} x tolerance{1e-2,1e-3} x transform{identity,rotate,mirror,scale2,transform()}";
-    run.note("oracle: centre curve T(s(u)+o(u)n(u)) from own section formulas at 4000 parameters per section; g = 4 x tolerance; max_evals 1000; scale_width = true; interpolation(): Hobby control points read back (checked for interpolation, start angle and G1), widths/offsets constant across it");
-    stage("seq1", 1, full_groups(), full);
+    run.note("oracle: centre curve T(s(u)+o(u)n(u)) from own section formulas at 4000 (quick tier: 2000) parameters per section; g = 4 x tolerance; max_evals 1000; scale_width = true; interpolation(): Hobby control points read back (checked for interpolation, start angle and G1), widths/offsets constant across it");
     if (!run.thorough()) {
-        stage("seq2", 2, diagonal_groups(), DIAG_DESC);
+        std::vector<Group> half;
+        for (auto& g : full_groups()) if ((g.nel == 1) == (g.tol == 0)) half.push_back(g);
+        stage("seq1", 1, half, "(elements,tolerance){(1,1e-2),(2,1e-3)} x end{flush,halfwidth,extended,round} x transform{identity,rotate,mirror,scale2,transform()}");
+    } else stage("seq1", 1, full_groups(), full);
+    if (!run.thorough()) {
+        stage("seq2", 2, quick_groups(), QUICK_DESC);
     } else {
         stage("seq2", 2, full_groups(), full);
-        if (!run.out_of_time()) stage("seq3", 3, diagonal_groups(), DIAG_DESC, diag_wo());
+        if (!run.out_of_time()) stage("seq3", 3, quick_groups(), QUICK_DESC, diag_wo());
     }
     return run.finish();
 }
